@@ -328,6 +328,27 @@ class VEngine(E.Engine):
         return res
 
 
+def deep_snapshot(v, st, memo):
+    """a deep copy of the heap graph reachable from v (for old_<param> in postconditions)"""
+    if isinstance(v, tuple):
+        return tuple(deep_snapshot(x, st, memo) for x in v)
+    if not isinstance(v, Ref):
+        return v
+    if v.oid in memo:
+        return memo[v.oid]
+    h = st.heap[v.oid]
+    c = h.copy()
+    r = st.alloc(c)
+    memo[v.oid] = r
+    if isinstance(c, HList):
+        c.items = [deep_snapshot(x, st, memo) for x in c.items]
+    elif isinstance(c, HDict):
+        c.vals = {k: deep_snapshot(x, st, memo) for k, x in c.vals.items()}
+    elif isinstance(c, HObj):
+        c.attrs = {k: deep_snapshot(x, st, memo) for k, x in c.attrs.items()}
+    return r
+
+
 def _log_views(eng, s):
     """spec-level views of the effect log: effects (callee names in order), and per-callee argument / result tuples"""
     views = {"log_effects": tuple(e["callee"] for e in s.log if isinstance(e, dict) and e.get("effect"))}
@@ -421,11 +442,10 @@ def verify_function(contract, registry, only_cases=None):
                 raise ValueError("case %s: no value for parameter %s" % (label, pname))
         # snapshots of heap arguments for old_<name>
         olds = {}
+        memo = {}
         for pname, v in binding.items():
-            if isinstance(v, Ref):
-                olds["old_" + pname] = st.alloc(st.heap[v.oid].copy())
-            elif isinstance(v, tuple):
-                olds["old_" + pname] = tuple(st.alloc(st.heap[x.oid].copy()) if isinstance(x, Ref) else x for x in v)
+            if isinstance(v, (Ref, tuple)):
+                olds["old_" + pname] = deep_snapshot(v, st, memo)
         init_env = dict(binding)
         init_env.update(olds)
         sid = eng.new_scope(st, dict(binding))
